@@ -173,6 +173,14 @@ def run(ctx):
     for _ in range(ctx.scale(3000, 60000)):
         plain = ''.join(rng.choice(ALPH) for _ in range(rng.randint(0, 25)))
         cases.append((plain, rng.choice(ACCEPTS)))
+    # accepted patterns that overlap themselves (they begin and end with the same letter), in chains of occurrences
+    for _ in range(ctx.scale(300, 5000)):
+        a = rng.choice('anxI')
+        sep = rng.choice([' x ', ', ', ' ', ' \u00d7 ', '-', ' b '])
+        pat = a + sep + a
+        k = rng.randint(2, 5)
+        plain = rng.choice(['', 'So ', 'c ']) + sep.join([a] * k) + rng.choice(['', ' and b.', ' ' + a, '.'])
+        cases.append((plain, rng.choice([pat, pat + '|I', 'q|' + pat, pat + '||'])))
     # context window at the start and the end of a long text
     for _ in range(ctx.scale(200, 3000)):
         k = rng.randint(40, 120)
